@@ -795,10 +795,12 @@ class ProtobufReader(Converter):
             start_time = self.convert(msg.start_time)
             end_time = self.convert(msg.end_time)
             duration = end_time - start_time
+            # an instantaneous action has no duration; a durative one keeps it, even if 0
+            is_durative = isinstance(action_instance.action, model.DurativeAction)
             return (
                 id,
                 action_instance,
-                (start_time, None if duration == 0 else duration),
+                (start_time, duration if is_durative else None),
             )
         else:
             return id, action_instance, None
